@@ -315,6 +315,15 @@ func literalFields(f *ssa.Function, typeName string) []map[string][]ssa.Value {
 					continue
 				}
 				for _, st := range storesTo(fa) {
+					// a struct-valued field set from an unexported helper that returns one literal built from its
+					// own parameters (w.walletID()): the helper's literal, field by field - when the helper's
+					// parameters are this function's parameters of the same position, so that "#i" means the same
+					if sub, ok := helperLiteral(f, st.Val); ok {
+						for k, vs := range sub {
+							m[prefix+fn+"."+k] = append(m[prefix+fn+"."+k], vs...)
+						}
+						continue
+					}
 					m[prefix+fn] = append(m[prefix+fn], st.Val)
 				}
 				// an array field filled by copy(lit.f[:], src) instead of lit.f = value
@@ -677,4 +686,35 @@ func isZeroStruct(v ssa.Value) bool {
 		return true
 	}
 	return false
+}
+
+// helperLiteral: v is a call, made in f, of an unexported helper whose single result is a named struct built as
+// one literal, every argument being f's own parameter of the same index: the literal's fields.
+func helperLiteral(f *ssa.Function, v ssa.Value) (map[string][]ssa.Value, bool) {
+	cl, ok := v.(*ssa.Call)
+	if !ok {
+		return nil, false
+	}
+	h := plainHelper(cl.Call.StaticCallee())
+	if h == nil || h == f || h.Signature.Results().Len() != 1 {
+		return nil, false
+	}
+	n, ok := h.Signature.Results().At(0).Type().(*types.Named)
+	if !ok {
+		return nil, false
+	}
+	if _, isStruct := n.Underlying().(*types.Struct); !isStruct {
+		return nil, false
+	}
+	for i, a := range cl.Call.Args {
+		prm, ok := a.(*ssa.Parameter)
+		if !ok || i >= len(f.Params) || f.Params[i] != prm {
+			return nil, false
+		}
+	}
+	lits := literalFields(h, n.Obj().Name())
+	if len(lits) != 1 || len(returnsOf(h)) != 1 {
+		return nil, false
+	}
+	return lits[0], true
 }
